@@ -663,7 +663,20 @@ func (c capLogger) rec(msg string, args ...interface{}) {
 		return nil
 	}
 	sc := c.sc
-	switch msg {
+	// the trace points are recognised by the shape of their key/value arguments (the wording of a message may
+	// change without any change of behaviour): a vertex under "target" alone = a resolution starts; a vertex under
+	// "input" = a missing requirement; "target" + "path" = the path chosen for a requirement
+	isVertex := func(x interface{}) bool { return x != nil && !strings.HasPrefix(sc.vertexName(x), "?") }
+	kind := msg
+	switch {
+	case len(args) == 4 && get("path") != nil && isVertex(get("target")):
+		kind = "path for target"
+	case len(args) == 2 && isVertex(get("input")):
+		kind = "conv is missing an input"
+	case len(args) == 2 && isVertex(get("target")):
+		kind = "reachTarget"
+	}
+	switch kind {
 	case "call":
 		// a new Call starts: Dijkstra runs of an enclosing, unlogged call do not belong to it
 		sc.pops = nil
